@@ -15,7 +15,11 @@ REGULAR = ["a", "a a", "a*", "a a*", "(a a)*", "$", "b", "a|b", "(a|b)*", "a b",
 def lib_rules(case, swapped=False):
     from pyformlang.indexed_grammar import EndRule, ProductionRule, ConsumptionRule, DuplicationRule
     out = []
-    for r in (GI.ref_rules(case, GI.NT_SWAPPED) if swapped else RI_rules(case)):
+    if swapped == "clash":
+        rules = GI.ref_rules(case, GI.NT_CLASH, GI.IX_CLASH, GI.TER_CLASH)
+    else:
+        rules = GI.ref_rules(case, GI.NT_SWAPPED) if swapped else RI_rules(case)
+    for r in rules:
         if r[0] == "end":
             out.append(EndRule(r[1], r[2]))
         elif r[0] == "prod":
@@ -196,19 +200,21 @@ class C17(Prop):
                 continue        # quick: every second regular language
             nfa = RX.to_nfa(RX.parse(text))
             want_empty = not RI.intersect_regular(rg, nfa)
-            for form in ("regex", "dfa", "enfa", "regex/start=A"):
-                if ctx.variant == "few" and form in ("dfa", "enfa") and k % 4:
+            for form in ("regex", "dfa", "enfa", "regex/start=A", "regex/clashing spellings", "enfa/clashing spellings"):
+                if ctx.variant == "few" and form != "regex" and (k % 4 or form == "enfa/clashing spellings"):
                     continue
                 swapped = form.endswith("start=A")
+                clash = form.endswith("clashing spellings")
+                rtext = text.replace("a", GI.TER_CLASH) if clash else text
 
                 def operand():
-                    r = Regex(text)
+                    r = Regex(rtext)
                     if form.startswith("regex"):
                         return r
                     e = r.to_epsilon_nfa()
                     return e.to_deterministic() if form == "dfa" else e
                 g = IndexedGrammar(Rules(lib_rules(case[1], swapped)), "A") if swapped else \
-                    IndexedGrammar(Rules(lib_rules(case[1])))
+                    IndexedGrammar(Rules(lib_rules(case[1], "clash" if clash else False)))
                 op = ctx.call(operand)
                 if not ctx.returns(op, "C17.intersection.operand", regular=text, form=form):
                     continue
